@@ -201,7 +201,16 @@ def run_mc_walk(pid, scn, gh_exe, timeout=3600, heap="6g"):
     return res
 
 
-def record_traces(pid, scn, gh_exe, seed, histories, steps, nmax, families=None, tag="trace", dense=()):
+ALL_OBS = ["n", "en", "tot", "nbr", "has", "edges", "noedge", "lab", "labd", "hasl", "mult", "wmat", "outdeg", "indeg",
+           "deg1", "deg2", "mat", "mat1"]
+WHOLE_GRAPH_OBS = ("mat", "mat1", "wmat")     # n x n matrices of the whole graph: not projected under an embedding
+
+
+def embedded_obs(scn):
+    return [f for f in (scn.obs_fields if scn.obs_fields is not None else ALL_OBS) if f not in WHOLE_GRAPH_OBS]
+
+
+def record_traces(pid, scn, gh_exe, seed, histories, steps, nmax, families=None, tag="trace", dense=(), embed=None):
     """Run the recorder for each family of the scenario's group; returns list of trace paths."""
     d = os.path.join(vf.RUN, pid, scn.name + "-" + tag)
     vf.fresh_dir(d)
@@ -219,6 +228,10 @@ def record_traces(pid, scn, gh_exe, seed, histories, steps, nmax, families=None,
                 "mult_cap": 3 if (scn.kind == "multi" and fam % 2) else 0}
         plan.update(scn.scope_plan())
         plan.pop("check_valid", None)
+        if embed:
+            # the history's vertices 0..k-1 are the real vertices embed[0..k-1] of a much larger graph
+            plan.update({"embed": list(embed), "nmax": len(embed), "big_every": 0, "dense": [], "bad": [],
+                         "obs_fields": embedded_obs(scn)})
         planf = os.path.join(d, "plan%d.json" % fam)
         with open(planf, "w") as f:
             json.dump(plan, f)
@@ -237,7 +250,7 @@ def record_traces(pid, scn, gh_exe, seed, histories, steps, nmax, families=None,
     return paths
 
 
-def validate_trace(pid, scn, trace_path, check_obs=True, timeout=1800, tag="v"):
+def validate_trace(pid, scn, trace_path, check_obs=True, timeout=1800, tag="v", obs_fields=None):
     """TLC validation of one recorded trace.  -> dict(accepted, events, matched, tlc)"""
     d = os.path.join(vf.RUN, pid, scn.name + "-" + tag + "-" + os.path.basename(trace_path))
     vf.fresh_dir(d)
@@ -246,7 +259,8 @@ def validate_trace(pid, scn, trace_path, check_obs=True, timeout=1800, tag="v"):
     consts["MaxCopies"] = "= 1000"
     consts["MaxMult"] = "= 1000000"
     consts["CheckObs"] = "= " + ("TRUE" if check_obs else "FALSE")
-    consts["ObsFields"] = "= " + vf.tla_set(scn.obs_fields if scn.obs_fields is not None else [])
+    consts["ObsFields"] = "= " + vf.tla_set(obs_fields if obs_fields is not None else
+                                            scn.obs_fields if scn.obs_fields is not None else [])
     consts["MaskByHas"] = "= " + ("TRUE" if getattr(scn, "mask_by_has", False) else "FALSE")
     consts["OnlyRejected"] = "= " + ("TRUE" if not getattr(scn, "check_valid", True) else "FALSE")
     cfg = vf.write_cfg(os.path.join(d, "MachineTrace.cfg"), consts, init="TInit", nxt="TNext",
